@@ -153,6 +153,20 @@ static sess::Outcome run_and_check(Session& s, bool check = true)
         else if (PROP == "C05" && s.finite) R.violation("C05:no_answer_within_horizon" + stopcls, w());
         return o;
     }
+    // one bestmove line per `go` over the WHOLE session: `p` only holds what follows the last-but-one bestmove,
+    // so a `go` answered twice would otherwise look like two well-behaved searches
+    if (PROP == "C05" || PROP == "C09")
+    {
+        sess::Parsed all = sess::parse_output(o.output, false);
+        size_t n_go = 0;
+        for (auto& l : s.lines)
+            if (l.rfind("go", 0) == 0) ++n_go;
+        if (all.bestmoves.size() != n_go)
+        {
+            R.violation(PROP + ":bestmove_lines_" + std::to_string(all.bestmoves.size()) + "_for_" + std::to_string(n_go) + "_go_commands" + stopcls, w().n("bestmove_lines", (long long)all.bestmoves.size()));
+            return o;
+        }
+    }
     // ---- C05 oracle (shared)
     bool legal_best = false;
     ref::Mv bm;
